@@ -41,6 +41,7 @@ class Infeasible(Exception):
 MUL_MODE = {"mode": "exact"}  # 'exact' | 'uf'
 _PROD = z3.Function("prod", z3.RealSort(), z3.RealSort(), z3.RealSort())
 _DIV = z3.Function("quot", z3.RealSort(), z3.RealSort(), z3.RealSort())
+_INV = z3.Function("recip", z3.RealSort(), z3.RealSort())
 UF = {}
 
 
@@ -215,7 +216,8 @@ class Num:
                 return Num(self.v / o.v)
             return Num(self.z() * zreal(1 / o.v))
         if MUL_MODE["mode"] == "uf" and not int_valued(o.z()):
-            return Num(_DIV(self.z(), o.z()))
+            # a / b = a * inv(b) with an uninterpreted reciprocal: (1/b)*c, c/b and (c*a)/b then share one normal form
+            return self._mul(Num(_INV(o.z())))
         return Num(self.z() / o.z())
 
     def __rtruediv__(self, o):
@@ -452,6 +454,17 @@ class RVec:
 
     def __repr__(self):
         return "RVec%r" % (self.items,)
+
+
+class FnItem:
+    """a function used as a value"""
+    __slots__ = ("path",)
+
+    def __init__(self, path):
+        self.path = path
+
+    def __repr__(self):
+        return "FnItem(%s)" % self.path
 
 
 class Opaque:
@@ -735,6 +748,8 @@ class Engine:
     # --- evaluation ------------------------------------------------------------------------
     def const(self, text, ty_hint=None):
         t = text.strip()
+        if t.startswith("fnitem "):
+            return FnItem(t[7:])
         if t == "true":
             return True
         if t == "false":
@@ -1119,6 +1134,8 @@ class Engine:
             clo = clo.get()
         else:
             clo_ref = Ref.to(clo)
+        if isinstance(clo, FnItem):
+            return self.call(None, clo.path, list(args))
         if not isinstance(clo, Closure):
             raise Unmodelled("call of non-closure %r" % (clo,))
         name = self.closure_index.get(clo.text)
